@@ -198,6 +198,25 @@ def substitutions(fields, positions=None):
             yield ('subst', [Part(base.d, body[:k] + bytes([b]) + body[k + 1:], base.hh)])
 
 
+def every_xor_value(fields):
+    """correct sentences whose body XOR takes every value 0x00..0x7f (0x00, one-digit values, 0x7f, ... included): one
+    payload character is swept over all printable bytes and the checksum is recomputed for each"""
+    seen = set()
+    payload = fields[5]
+    for k in (len(payload) - 1, len(payload) // 2):
+        if k < 0:
+            continue
+        for b in range(0x30, 0x78):
+            f = list(fields)
+            f[5] = payload[:k] + bytes([b]) + payload[k + 1:]
+            p = part_of(f)
+            x = int(p.hh, 16)
+            if x not in seen:
+                seen.add(x)
+                yield ('right-checksum:xor=%02X' % x if x in (0, 0x7f) or x < 0x10 else 'right-checksum', [p])
+                yield ('right-checksum', [part_of(f, lower=True)])
+
+
 def checksum_values(fields):
     base = part_of(fields)
     good = int(base.hh, 16)
@@ -270,6 +289,8 @@ def generate(ctx, deep=False):
         cases.extend(substitutions(f, positions=rng.sample(range(len(base.body)), 6)))
     for f in (sents if (deep or not ctx.quick) else [aiss[0], aiss[3], aiss[-1], gh[0]]):
         cases.extend(checksum_values(f))
+    for f in (aiss if (deep or not ctx.quick) else [aiss[0], aiss[-1]]):
+        cases.extend(every_xor_value(f))
     for f in sents:
         cases.extend(carriers(f))
         cases.append(('plain', [part_of(f)]))
